@@ -4,10 +4,17 @@
 # undoes it straight afterwards.  Never commits anything in /repo.
 P="$(cd "$(dirname "$1")" && pwd)/$(basename "$1")"
 PROP="$2"; TIER="${3:-quick}"
+mkdir -p /verif/.build
+if [ -z "$VERIF_LOCK_HELD" ]; then
+  VERIF_LOCK_HELD=1 exec flock -x /verif/.build/repo.lock "$0" "$@"
+fi
 [ -z "$(git -C /repo status --porcelain --untracked-files=no)" ] || { echo "repo not clean"; exit 2; }
 git -C /repo apply "$P" || { echo "patch does not apply"; exit 2; }
+# evidence committed in /verif must come from the unchanged tree: keep it aside
+cp /verif/evidence/$PROP.json /tmp/try.$$.ev 2>/dev/null
 cd /verif && ./check $PROP --tier $TIER > /tmp/try.$$.log 2>&1; RC=$?
 git -C /repo checkout -- .
+[ -f /tmp/try.$$.ev ] && mv /tmp/try.$$.ev /verif/evidence/$PROP.json
 grep -E "violation key|VIOLATION|HELD|INCONCLUSIVE|HARNESS|KNOWN" /tmp/try.$$.log | head -12
 echo "try_mutant: $PROP rc=$RC"
 rm -f /tmp/try.$$.log /verif/replays/*.json
